@@ -5,7 +5,7 @@ FILES = ["harness/algo/ref.go", "harness/algo/c03.go"]
 def run(c, replay):
     ov = c.harness_overlay("src/algo", FILES)
     b = c.build_test("src/algo", ov)
-    c.bounds = dict(text_len=c.pick(4, 5), text_alphabet="a b A 1 ␠ / - _ á 가 ,", pattern_len=3, pattern_alphabet="a b A 1",
+    c.bounds = dict(text_len=c.pick(4, 5), text_alphabet="a b A 1 ␠ / - _ á Á 가 ,", pattern_len=3, pattern_alphabet="a b A 1 á",
                     schemes=3, flags="case x normalise x direction x representation")
     c.assumptions += ["reference recurrence and alignment scorer written from the documented rules (harness/algo/ref.go)",
                       "EqualMatch / ExactMatchBoundary: only the documented ordering, positivity and independence of surroundings are demanded",
